@@ -258,11 +258,11 @@ class _RuleFilter:
         return getattr(self._rep, name)
 
 
-def equivalence_discharge(prog, cd, rep, prefix="atom-equivalence/"):
+def equivalence_discharge(prog, cd, rep, prefix="atom-equivalence/", extra=()):
     """len(map) == len(items) is used to identify counts; it holds because the two lists are only ever mutated pairwise
     (C15's parallel-init / paired-mutation / handler-keeps-pair rules, re-run here for exactly those classes)."""
     from .c15 import EXPECTED, check_class
-    proxy = _RuleFilter(rep, {"parallel-init", "paired-mutation", "handler-keeps-pair", "container-kind"}, prefix)
+    proxy = _RuleFilter(rep, {"parallel-init", "paired-mutation", "handler-keeps-pair", "container-kind"} | set(extra), prefix)
     for cname, (amap, items) in EXPECTED.items():
         if cname in cd.pairs and cname in cd.units:
             a, b, c, f = cd.pairs[cname]
@@ -272,6 +272,8 @@ def equivalence_discharge(prog, cd, rep, prefix="atom-equivalence/"):
 def run(prog, rep):
     cd = Codecs(prog)
     cd.flag_errors(rep)
+    from ..codecs import no_stale_derived_state
+    rep.attempt(no_stale_derived_state, prog, cd, rep)
     rep.explanation = (
         "codec-symmetry: every _write/_build pair is abstractly interpreted (no execution) into a layout term "
         "symbolic in every count; the two terms are unified position by position (order, on-disk class and width, "
@@ -294,7 +296,8 @@ def run(prog, rep):
     rep.attempt(PR.tdftype_primitives, prog, rep)
     rep.attempt(PR.string_codec, prog, rep)
     rep.attempt(PR.date_codec, prog, rep)
-    equivalence_discharge(prog, cd, rep)
+    # decoders attach items to their channel through the add method: an explicit channel must be honoured
+    equivalence_discharge(prog, cd, rep, extra=("explicit-channel-honoured",))
     for n in cd.notes:
         rep.note(n)
     for a in cd.assumptions:
